@@ -18,6 +18,25 @@ def gen_case(rng, depth=3):
     return dict(spec=spec, options=kw, value=v)
 
 
+def gen_union_case(rng):
+    """unions / xors of 2-3 leaves under every flag combination, with values the leaves disagree on"""
+    op = rng.choice(["|", "|", "|", "^"])
+    leaves = [("leaf", rng.choice(decl.LEAVES)) for _ in range(rng.randint(2, 3))]
+    spec = ("logic", op, leaves)
+    if rng.random() < 0.3:
+        spec = rng.choice([("list", spec, {}), ("dict", ("leaf", "str"), spec), ("optional", spec)])
+    kw = {}
+    fl = rng.randrange(4)
+    if fl & 1:
+        kw["no_data_loss"] = True
+    if fl & 2:
+        kw["no_explicit_cast"] = True
+    if rng.random() < 0.2:
+        kw["collect_errors"] = True
+    v = decl.valid_value(rng, spec) if rng.random() < 0.8 else gen.scalar(rng)
+    return dict(spec=spec, options=kw, value=v)
+
+
 _cache = {}
 
 
